@@ -1,7 +1,7 @@
 (* C10 — `update` rewrites only failing expectations and is idempotent. *)
 From Coq Require Import List NArith Bool.
 Import ListNotations.
-From SV Require Import Template Escape LineParser CramSpec Markdown MdSpec MarkdownProofs Update UpdateProofs UpdateAstProofs.
+From SV Require Import Template Escape LineParser CramSpec Markdown MdSpec MarkdownProofs MdParseProofs Update UpdateProofs UpdateAstProofs.
 Local Open Scope N_scope.
 
 (* The update generator works on the token stream of C06, which accounts for every line of every document
